@@ -86,6 +86,8 @@ STATEMENT_STATUS: Dict[str, str] = {
     "C16_clip_does_not_paint": "proved (W, W* are no-ops on every state)",
     "C16_paint_frame": "proved (painting operators and n clear the path and touch nothing else)",
     "C16_clip_then_paint": "proved",
+    "C16_segment_operands": "proved (regenerated do_m do_l do_c do_v do_y append the ISO segment, operands in order)",
+    "C16_cm_composes": "proved (regenerated do_cm pre-multiplies: new matrix first, then the old CTM)",
 }
 
 # --------------------------------------------------------------------------- operators
